@@ -108,7 +108,7 @@ func genC16(t *rapid.T) C16Case {
 				switch {
 				case up && w2[pos] < h.Base-1:
 					w2[pos] += 1 + rapid.Uint64Range(0, h.Base-2-w2[pos]).Draw(t, "md.delta")%7
-				case !up && w2[pos] > h.Base/10+1:
+				case !up && w2[pos] > h.Base/10+7: // (the top word must keep its leading digit: the value would otherwise lose a decade, and at exponent MinExp fall out of the range - a harness error that a thorough campaign reported as a failure once)
 					w2[pos] -= 1 + rapid.Uint64Range(0, 5).Draw(t, "md.delta")
 				case !up && pos > 0 && w2[pos] > 0:
 					w2[pos]--
